@@ -51,8 +51,6 @@ def oracle_kzg_muts(case, lo):
         r = lib_s(lo, "mut.%d" % j)
         if kind == "value" and r == "accept":
             fails.append("kzg10 check accepts value + %s for polynomial %d (%s)" % (arg, i, case.meta["shapes"][i]))
-        if kind == "comm_exp" and r == "accept" and lib_toks(lo, "c.%d" % i) is not None:
-            fails.append("kzg10 check accepts a replaced commitment element for polynomial %d" % i)
     return fails
 
 
@@ -166,9 +164,9 @@ PROPS = {
     },
     "C02": {
         "props_file": "props/C02.v",
-        "flows": [(gen_kzg.gen, "c02", 40, 400), (gen_pc.gen, "c02", 96, 960)],
-        "oracles": [oracle_kzg_muts, lambda c, lo: pc_mutations(c, lo, ("value", "comm_swap", "cancel"))],
-        "accept_diffs": ("mut.",),
+        "flows": [(gen_kzg.gen, "c02", 60, 600), (gen_pc.gen, "c02", 160, 1600)],
+        "oracles": [oracle_kzg_muts, oracle_kzg_batches, lambda c, lo: pc_mutations(c, lo, ("value", "comm_swap", "cancel"))],
+        "accept_diffs": ("mut.", "batch."),
         "title": "Evaluation binding (honest proof, false claim)",
     },
     "C03": {
